@@ -32,7 +32,7 @@ def plan(tier, seed):
 
 
 def unit_timeout(tier):
-    return 240 if tier == "quick" else 900
+    return 90 if tier == "quick" else 900
 
 
 def floors(tier):
